@@ -598,9 +598,9 @@ class ClientSSM(SSM):
                 self.response(abort) # send it to the application
 
         elif (apdu.apduType == SegmentAckPDU.pduType):
+            # a duplicate of the final ack of the segmented request, the wait
+            # for the answer goes on with the APDU timeout unchanged
             if _debug: ClientSSM._debug("    - segment ack(!?)")
-
-            self.restart_timer(self.segmentTimeout)
 
         else:
             raise RuntimeError("invalid APDU (3)")
